@@ -46,7 +46,7 @@ func formatWith(f proxy.EntityFormatter, doc obj) (o obsv) {
 	if doc != nil {
 		in = deepCopy(doc).(obj)
 	}
-	return obsv{data: f.Format(proxy.Response{Data: in, IsComplete: true}).Data}
+	return observed(f.Format(proxy.Response{Data: in, IsComplete: true}).Data)
 }
 
 func (in instances) run(doc obj) triple {
@@ -101,6 +101,7 @@ func reuseCorpus() []reuseSeq {
 		{Target: "a"}, {Target: "a.d", Group: "g"}, {Target: "a", Allow: []string{"b", "d.e"}, Mapping: map[string]string{"b": "B"}, Group: "g"},
 		{Mapping: map[string]string{"a": "x", "c": "y.z"}}, {Deny: []string{"a.c"}, Mapping: map[string]string{"b": "bb"}, Group: "a"},
 	}
+	cfgs = append(cfgs, fcfg{Target: "zz"}, fcfg{Target: "a.b"}, fcfg{Target: "a.zz", Group: "g"}, fcfg{Target: "b", Deny: []string{"x"}})
 	var res []reuseSeq
 	for i, c := range cfgs {
 		if i%2 == 0 {
@@ -291,7 +292,8 @@ func proxyReuse(w *out.Writer, c fcfg, isCollection bool, payloads []interface{}
 		if err != nil || resp == nil {
 			return nil
 		}
-		return &obsv{data: resp.Data}
+		o := observed(resp.Data)
+		return &o
 	}
 	for step, payload := range payloads {
 		body, err := json.Marshal(payload)
